@@ -155,9 +155,14 @@ func (p *NetFlowPipe) DecodeFlow(msg interface{}) error {
 	templates, ok := p.templates[key]
 	p.templateslock.RUnlock()
 	if !ok {
-		templates = p.netFlowTemplater(key)
+		// first contact: look again under the write lock, so that concurrent workers
+		// handling the same new exporter all end up with the one published system
 		p.templateslock.Lock()
-		p.templates[key] = templates
+		templates, ok = p.templates[key]
+		if !ok {
+			templates = p.netFlowTemplater(key)
+			p.templates[key] = templates
+		}
 		p.templateslock.Unlock()
 	}
 
